@@ -507,6 +507,252 @@ fn gen_vfy(rng: &mut Rng, tier: Tier, count: usize, emit: &mut dyn FnMut(String)
     }
 }
 
+/// schedule classes × structured inputs × remainder/commitment strategies (HARDENING.md 1-4): every class of
+/// (folding, layers 0..3, remainder length vs folding factor, folded bound vs remainder_max_degree+1, blowup) gets
+/// an honest line and lines with longer / shorter / zero-padded remainders whose commitment is consistent
+/// (`crem` = `rem`) or not, a degree bound one step below the honest one, and the adaptive remainder
+fn gen_sched_vfy(rng: &mut Rng, tier: Tier, emit: &mut dyn FnMut(String)) {
+    let classes = schedule_classes(8);
+    let strategies = [
+        "honest", "cremdiff", "adaptrem", "rempad", "remtrim", "crempad", "cremtrim", "boundtrim", "boundtrim-honest",
+        "overdeg1", "ncommit-", "ncommit+", "lenmismatch", "tampereval", "remzero",
+    ];
+    let reps = if tier == Tier::Quick { 3 } else { 15 };
+    let mut k = 0usize;
+    for c in &classes {
+        if (c.t << c.logb) > 64 {
+            continue;
+        }
+        for rep in 0..reps {
+            k += 1;
+            let fld = FIELDS[k % 4];
+            let of = of_for(fld).unwrap();
+            let hs = hashers_for(fld);
+            let hasher = hs[(k / 4) % hs.len()];
+            let t = 1usize << c.logt;
+            let size = t << c.logb;
+            let alphas: Vec<O> = (0..c.layers + 1).map(|_| of.rand(rng)).collect();
+            let pk = POLY_KINDS[(k * 7 + rep) % POLY_KINDS.len()];
+            let qk = QUERY_KINDS[(k * 5 + rep) % QUERY_KINDS.len()];
+            let positions = structured_positions(qk, size, c.n, c.layers, rng);
+            let strategy = strategies[k % strategies.len()];
+            let nl = c.n.pow(c.layers as u32);
+            let coeffs = match strategy {
+                "adaptrem" | "overdeg1" => {
+                    let mut f: Vec<O> = (0..t + 1).map(|_| of.rand(rng)).collect();
+                    f[t] = of.one();
+                    f
+                },
+                // degree below the bound lowered by one step of the last layer
+                "boundtrim" | "boundtrim-honest" | "remtrim" | "cremtrim" if c.t >= 2 => {
+                    let mut f = structured_poly(&of, pk, t - nl, c.n, alphas[0], rng);
+                    f.resize(t, of.zero());
+                    f
+                },
+                _ => structured_poly(&of, pk, t, c.n, alphas[0], rng),
+            };
+            let mut s = honest_scn(&of, fld, hasher, c.n, c.r, c.logb, c.logt, &coeffs, &alphas, &positions);
+            let tl = s.rem.len();
+            match strategy {
+                "cremdiff" => s.crem[0] = of.add(s.crem[0], of.one()),
+                "adaptrem" => {
+                    let mut lp = s.last_positions.clone();
+                    lp.sort();
+                    lp.dedup();
+                    if lp.len() <= tl {
+                        let doml = of.domain(s.last_domain);
+                        let xs: Vec<O> = lp.iter().map(|p| doml[*p]).collect();
+                        let ys: Vec<O> = xs.iter().map(|x| of.horner(&s.last_coeffs, *x)).collect();
+                        let mut nr = of.interpolate(&xs, &ys);
+                        nr.resize(tl, of.zero());
+                        s.rem = nr;
+                    }
+                },
+                "rempad" => {
+                    s.rem.push(of.zero());
+                    s.crem = s.rem.clone();
+                },
+                "remtrim" => {
+                    if c.t >= 2 {
+                        s.rem.pop();
+                        s.crem = s.rem.clone();
+                    }
+                },
+                "crempad" => s.crem.push(of.zero()),
+                "cremtrim" => {
+                    if c.t >= 2 {
+                        s.crem.pop();
+                    }
+                },
+                "boundtrim" | "boundtrim-honest" => {
+                    // the claimed bound is one coefficient of the last layer lower; same domain when t > 2
+                    if c.t >= 4 {
+                        s.maxdeg = t - nl - 1;
+                        if strategy == "boundtrim" {
+                            s.rem.pop();
+                            s.crem = s.rem.clone();
+                        }
+                    }
+                },
+                "ncommit-" => {
+                    if s.ncommit > 1 {
+                        s.ncommit -= 1;
+                        s.alphas.pop();
+                    }
+                },
+                "ncommit+" => {
+                    s.ncommit += 1;
+                    s.alphas.push(of.rand(rng));
+                },
+                "lenmismatch" => {
+                    s.evals.pop();
+                },
+                "tampereval" => {
+                    let i = rng.below(s.evals.len() as u64) as usize;
+                    s.evals[i] = of.add(s.evals[i], of.one());
+                },
+                "remzero" => {
+                    // the all-zero remainder presented for a non-zero function (commitment consistent)
+                    for x in s.rem.iter_mut() {
+                        *x = of.zero();
+                    }
+                    s.crem = s.rem.clone();
+                },
+                _ => {},
+            }
+            emit(s.line(&of, &format!("s-{}", strategy)));
+        }
+    }
+}
+
+/// single-step alterations of an honest scenario, combined in pairs so that the PRECEDENCE of the verifier's checks
+/// is pinned (which error is reported when two things are wrong), plus schedules whose folding overshoots the
+/// remainder (bound below the folding factor at the last layer) with and without the remainder commitment
+fn mutate(of: &OF, s: &mut Scn, name: &str, folding: usize, layers: usize, t: usize, rng: &mut Rng) {
+    match name {
+        "cremdiff" => {
+            if let Some(x) = s.crem.first_mut() {
+                *x = of.add(*x, of.one());
+            }
+        },
+        "rempad" => {
+            s.rem.push(of.zero());
+            s.crem = s.rem.clone();
+        },
+        "crempad" => s.crem.push(of.zero()),
+        "tampereval" => {
+            if !s.evals.is_empty() {
+                let i = rng.below(s.evals.len() as u64) as usize;
+                s.evals[i] = of.add(s.evals[i], of.one());
+            }
+        },
+        "tamperval" => {
+            if layers > 0 {
+                let d = rng.below(layers as u64) as usize;
+                if !s.layers[d].1.is_empty() {
+                    let i = rng.below(s.layers[d].1.len() as u64) as usize;
+                    let j = rng.below(folding as u64) as usize;
+                    s.layers[d].1[i][j] = of.add(s.layers[d].1[i][j], of.one());
+                }
+            }
+        },
+        "merkle0" => {
+            if layers > 0 {
+                let d = rng.below(layers as u64) as usize;
+                s.layers[d].0 = false;
+            }
+        },
+        "ncommit-" => {
+            if s.ncommit > 1 {
+                s.ncommit -= 1;
+                s.alphas.pop();
+            }
+        },
+        "ncommit+" => {
+            s.ncommit += 1;
+            s.alphas.push(of.rand(rng));
+        },
+        "lenmismatch" => {
+            s.evals.pop();
+        },
+        "baddeg" => {
+            // same domain, but the bound stops being divisible by the folding factor at layer d
+            if layers > 0 {
+                let d = rng.below(layers as u64) as usize;
+                let nd = folding.pow(d as u32);
+                if 2 * nd < t {
+                    s.maxdeg = t - nd - 1;
+                }
+            }
+        },
+        "remzero" => {
+            for x in s.rem.iter_mut() {
+                *x = of.zero();
+            }
+            s.crem = s.rem.clone();
+        },
+        _ => {},
+    }
+}
+
+fn gen_combo_vfy(rng: &mut Rng, tier: Tier, emit: &mut dyn FnMut(String)) {
+    let names = [
+        "cremdiff", "rempad", "crempad", "tampereval", "tamperval", "merkle0", "ncommit-", "ncommit+", "lenmismatch", "baddeg",
+        "remzero",
+    ];
+    let classes: Vec<Sched> = schedule_classes(8).into_iter().filter(|c| (c.t << c.logb) <= 64 && c.layers >= 1).collect();
+    let count = if tier == Tier::Quick { 330 } else { 3300 };
+    for k in 0..count {
+        let c = classes[(k * 7) % classes.len()];
+        let fld = FIELDS[k % 4];
+        let of = of_for(fld).unwrap();
+        let hasher = hashers_for(fld)[(k / 4) % 3];
+        let t = 1usize << c.logt;
+        let size = t << c.logb;
+        let alphas: Vec<O> = (0..c.layers + 1).map(|_| of.rand(rng)).collect();
+        let coeffs = structured_poly(&of, "full", t, c.n, alphas[0], rng);
+        let positions = structured_positions(QUERY_KINDS[k % QUERY_KINDS.len()], size, c.n, c.layers, rng);
+        let mut s = honest_scn(&of, fld, hasher, c.n, c.r, c.logb, c.logt, &coeffs, &alphas, &positions);
+        // all ordered pairs of alterations, in rotation
+        let a = names[k % names.len()];
+        let b = names[(k / names.len() + 1 + k) % names.len()];
+        mutate(&of, &mut s, a, c.n, c.layers, t, rng);
+        mutate(&of, &mut s, b, c.n, c.layers, t, rng);
+        emit(s.line(&of, &format!("c-{}+{}", a, b)));
+    }
+    // overshooting schedules: at the last layer the bound is below the folding factor (and not divisible by it)
+    for (n, logt, r, logb) in [(4usize, 3u32, 0usize, 1u32), (8, 5, 1, 2), (16, 3, 3, 1), (16, 5, 0, 1), (8, 2, 0, 2), (4, 1, 0, 2)] {
+        for fld in FIELDS {
+            let of = of_for(fld).unwrap();
+            let t = 1usize << logt;
+            let size = t << logb;
+            let layers = ref_num_layers(1 << logb, n, r, size);
+            // every layer's domain must still hold a full row
+            let mut d = size;
+            let mut ok = true;
+            for _ in 0..layers {
+                if d < n {
+                    ok = false;
+                }
+                d /= n;
+            }
+            if !ok || layers == 0 {
+                continue;
+            }
+            let alphas: Vec<O> = (0..layers + 1).map(|_| of.rand(rng)).collect();
+            let coeffs: Vec<O> = (0..t).map(|_| of.rand(rng)).collect();
+            let positions = structured_positions("rand", size, n, layers, rng);
+            let base = honest_scn(&of, fld, "b3", n, r, logb, logt, &coeffs, &alphas, &positions);
+            emit(base.line(&of, "overshoot"));
+            for m in ["ncommit-", "ncommit+", "tampereval", "cremdiff"] {
+                let mut s = base.clone();
+                mutate(&of, &mut s, m, n, layers, t, rng);
+                emit(s.line(&of, &format!("overshoot+{}", m)));
+            }
+        }
+    }
+}
+
 // ------------------------------------------------------------------------------------ adv (default channels)
 /// prover channel with the default coin that (a) can replace the first commitment by a given digest and
 /// (b) can hand the prover a wrong α at one layer
@@ -891,13 +1137,51 @@ fn gen_adv(rng: &mut Rng, tier: Tier, count: usize, emit: &mut dyn FnMut(String)
     }
 }
 
+/// end-to-end adversaries on every schedule class (default channels, Merkle trees, coin)
+fn gen_sched_adv(rng: &mut Rng, tier: Tier, emit: &mut dyn FnMut(String)) {
+    let classes = schedule_classes(if tier == Tier::Quick { 10 } else { 12 });
+    let mut k = 0usize;
+    for c in &classes {
+        let t = 1usize << c.logt;
+        let size = t << c.logb;
+        if size < 8 {
+            continue;
+        }
+        k += 1;
+        let fld = FIELDS[k % 4];
+        let hs = hashers_for(fld);
+        let hasher = hs[(k / 4) % hs.len().min(3)];
+        let (strategy, fkind, fparam) = match k % 8 {
+            0 => ("honest", "deg", t),
+            1 => ("adaptrem", "deg", t),
+            2 => ("tamperrem", "low", 0),
+            3 => ("tampereval", "low", 0),
+            4 => ("honest", "low", 0),
+            5 => ("adaptrem", "rand", 0),
+            6 => ("honest", "deg", size - 1),
+            _ => ("honest", "corrupt", size / 2 + 1),
+        };
+        if strategy == "adaptrem" && c.t < 2 {
+            continue;
+        }
+        let nq = if strategy == "adaptrem" { rng.range(1, (c.t as u64).min(8)) } else { rng.range(1, 12.min(size as u64 - 1)) };
+        emit(format!(
+            "adv {} {} {} {} {} {} {} {} {} {} 0 {}",
+            fld, hasher, c.n, c.r, c.logb, c.logt, nq, fkind, fparam, strategy, rng.u64() >> 1
+        ));
+    }
+}
+
 impl Prop for P {
     fn id(&self) -> &'static str {
         "C05"
     }
     fn gen(&self, rng: &mut Rng, tier: Tier, n: usize, emit: &mut dyn FnMut(String)) {
         let n = default_n(tier, 1400, 14_000, n);
-        let mut groups: Vec<Vec<String>> = vec![vec![], vec![]];
+        let mut groups: Vec<Vec<String>> = vec![vec![], vec![], vec![], vec![], vec![]];
+        gen_combo_vfy(&mut rng.fork(), tier, &mut |l| groups[4].push(l));
+        gen_sched_adv(&mut rng.fork(), tier, &mut |l| groups[3].push(l));
+        gen_sched_vfy(&mut rng.fork(), tier, &mut |l| groups[2].push(l));
         gen_vfy(rng, tier, n, &mut |l| groups[0].push(l));
         gen_adv(rng, tier, n, &mut |l| groups[1].push(l));
         emit_interleaved(groups, emit);
